@@ -493,6 +493,11 @@ def special_programs():
                     [(name, ['[5]', '[7]'])]))
     out.append(('own-variable-named-like-a-replaced-builtin', "input = 5\nopen = [1, 2]\nprint(input, open)\ndef total():\n    return input + len(open)\n",
                 [('total', ['[]', '[]'])]))
+    for base in ('KeyError', 'LookupError', 'ValueError', 'IndexError', 'ZeroDivisionError', 'AttributeError', 'NameError', 'TypeError', 'OSError', 'Exception'):
+        # the program ends with an exception of a class of its own, derived from a builtin one
+        out.append(('uncaught-exception-of-an-own-class-derived-from-%s' % base,
+                    "class OutOfStock(%s):\n    pass\nstock = {'apple': 2}\ndef take(item):\n    if item not in stock:\n        raise OutOfStock(item)\n    return stock[item]\nprint(take('apple'))\ntake('pear')\n" % base,
+                    [('take', ["['apple']", "['pear']"])]))
     for depth in (2, 5, 7, 8, 9, 12, 30, 63, 64, 70, 150, 400):
         out.append(('failure-under-%d-frames' % depth,
                     "def dig(n):\n    if n == 0:\n        return [1, 2][5]\n    below = dig(n - 1)\n    return below + 1\nprint('start')\ndig(%d)\n" % depth,
